@@ -110,7 +110,7 @@ def decode_table(stream, cols, long_refs):
     return rows
 
 
-def check_saved_file(entries, schemas, expected_rows, decode):
+def check_saved_file(entries, schemas, expected_rows, decode, accounting=True, sort_catalog=False):
     """entries: {raw entry name: bytes}; schemas: {table: cols}; expected_rows: {table: rows of python values}.
     Returns a list of problems (empty = well-formed with exact string accounting)."""
     problems = []
@@ -156,12 +156,22 @@ def check_saved_file(entries, schemas, expected_rows, decode):
                     counts[ref] += 1
                     out.append(pool[ref - 1][0])
             vals.append(out)
-        if tname in expected_rows and vals != expected_rows[tname]:
+        exp = expected_rows.get(tname)
+        if exp is not None:
+            exp = [[None if v == "" else v for v in r] for r in exp]
+        if sort_catalog and tname in ("_Tables", "_Columns", "_Validation") and exp is not None:
+            k = lambda r: [(0, 0) if v is None else (1, v) if isinstance(v, int) else (2, v) for v in r]
+            vals, exp = sorted(vals, key=k), sorted(exp, key=k)
+        if tname in expected_rows and vals != exp:
             problems.append("table %s decodes to %r, the API reports %r" % (tname, vals[:4], expected_rows[tname][:4]))
     for t in by_decoded:
         if t not in schemas and t not in ("_StringPool", "_StringData"):
             problems.append("table stream %s is not listed in the catalog" % t)
     for i, (text, rc, raw) in enumerate(pool, 1):
+        if not accounting:
+            if rc < counts[i]:
+                problems.append("pool entry %d (%r): refcount %d below its %d referring cells" % (i, text[:20], rc, counts[i]))
+            continue
         if rc != counts[i]:
             problems.append("pool entry %d (%r): refcount %d but %d referring cells" % (i, text[:20], rc, counts[i]))
         if rc == 0 and raw:
